@@ -22,8 +22,8 @@ ASSUMPTIONS = ["restore_cpgraph always extracts under /tmp; the extracted direct
                "breakdown frames are compared up to row order and dtype"]
 FLOAT_KEYS = ["files"]          # fractional-time-unit workload class (hv/shard.py)
 PLAN = {"quick": {"shards": 16, "cases": 192, "timeout": 900}, "thorough": {"shards": 16, "cases": 2000, "timeout": 3400}}
-FLOORS = {"quick": {"distinct_nontrivial": 60, "cycles": 250, "graphs": 120, "clamped_edge_graphs": 8, "breakdowns_compared": 250, "graphs_with_csv_hostile_names": 30, "batch_restores": 60, "graphs_with_two_equal_weight_maximum_paths": 30, "restores_from_a_renamed_archive": 20},
-          "thorough": {"distinct_nontrivial": 900, "cycles": 4000, "graphs": 1900, "clamped_edge_graphs": 150, "breakdowns_compared": 4000, "graphs_with_csv_hostile_names": 500, "batch_restores": 900, "graphs_with_two_equal_weight_maximum_paths": 400, "restores_from_a_renamed_archive": 200,
+FLOORS = {"quick": {"distinct_nontrivial": 60, "cycles": 250, "graphs": 120, "clamped_edge_graphs": 8, "breakdowns_compared": 250, "graphs_with_csv_hostile_names": 30, "batch_restores": 60, "graphs_with_two_equal_weight_maximum_paths": 30, "restores_from_a_renamed_archive": 20, "cross_session_restores": 20},
+          "thorough": {"distinct_nontrivial": 900, "cycles": 4000, "graphs": 1900, "clamped_edge_graphs": 150, "breakdowns_compared": 4000, "graphs_with_csv_hostile_names": 500, "batch_restores": 900, "graphs_with_two_equal_weight_maximum_paths": 400, "restores_from_a_renamed_archive": 200, "cross_session_restores": 200,
                        "graphs_with_more_than_65536_trace_rows": 1}}
 
 
@@ -156,6 +156,52 @@ def _compare(res, ctag, rg, snap, rows0) -> None:  # noqa: ANN001
             res.bad("restored-breakdown", f"{ctag}: breakdown differs: only original {list((rows0 - rows1).items())[:2]}; only restored {list((rows1 - rows0).items())[:2]}")
 
 
+def _cross_session(case, res, A, g, snap, rows0, tag) -> None:  # noqa: ANN001
+    """The archive is what outlives the session: a new interpreter (its own string-hash seed, like every new session) loads the
+    same trace files the same way and restores the archive there."""
+    import json
+    import pickle
+    import subprocess
+    import sys
+    out_dir = os.path.join(A.workdir, "kept_for_later")
+    ok, zp = drv.guard(res, "CPGraph.save", g.save, out_dir)
+    if not ok:
+        return
+    seed = 1 + core.rng("c19xs", case["win_seed"]).randrange(1000)
+    if str(seed) == os.environ.get("PYTHONHASHSEED"):
+        seed += 1
+    job = os.path.join(A.workdir, "xs_job.txt")
+    with open(job, "w") as f:
+        json.dump({"dir": A.workdir, "zip": zp, "rank": A.rank, "inc_last": bool(case.get("inc_last")), "pre_decode": bool(case.get("pre_decode"))}, f)
+    try:
+        try:
+            p = subprocess.run([sys.executable, "-m", "hv.props.c19_child", job], env=dict(os.environ, PYTHONHASHSEED=str(seed)),
+                               stdout=subprocess.PIPE, stderr=subprocess.PIPE, text=True, timeout=600)
+        except subprocess.TimeoutExpired:
+            res.counters["cross_session_timeouts"] += 1        # inconclusive, not a verdict
+            return
+        if not os.path.exists(job + ".out.pkl"):
+            raise RuntimeError(f"cross-session child produced nothing: rc={p.returncode} {p.stderr[-800:]}")
+        with open(job + ".out.pkl", "rb") as f:
+            out = pickle.load(f)
+    finally:
+        _cleanup_extracted(out_dir)
+    ctag = f"{tag} restored in a new interpreter (PYTHONHASHSEED={seed}) from the same trace files"
+    if out["error"]:
+        res.bad("cross-session-restore-raised", f"{ctag}: {out['error'][:600]}")
+        return
+    res.counters["cross_session_restores"] += 1
+    s2 = out["snap"]
+    for key, what in (("nodes", "node set"), ("node_list", "node_list"), ("e2e", "edge_to_event_map"), ("start", "event_to_start_node_map"),
+                      ("end", "event_to_end_node_map"), ("path", "critical_path_nodes"), ("evs", "critical_path_events_set"),
+                      ("eset", "critical_path_edges_set"), ("edges", "edges (weight attribute, edge object)")):
+        if s2[key] != snap[key]:
+            res.bad(f"cross-session-{key}", f"{ctag}: {what} differs from the original")
+    if out["rows"] != rows0:
+        res.bad("cross-session-breakdown", f"{ctag}: breakdown differs: only original {list((rows0 - out['rows']).items())[:2]}; "
+                                           f"only restored {list((out['rows'] - rows0).items())[:2]}")
+
+
 def run_case(case: Dict[str, Any], ctx: Any) -> core.CaseResult:
     from hta.analyzers.critical_path_analysis import restore_cpgraph
 
@@ -216,6 +262,8 @@ def run_case(case: Dict[str, Any], ctx: Any) -> core.CaseResult:
                 if r is not True or abs(w1 - w0) > 1e-9:
                     res.bad("recomputed-path-weight", f"{ctag}: critical_path() on the restored graph returned {r!r} with weight {w1}, original {w0}")
             cur = rg
+        if len(batch) == 1 and not case.get("huge") and core.rng("c19xs?", case["win_seed"]).random() < 0.3:
+            _cross_session(case, res, A, g, snap, rows0, tag)
         types = {d["object"].type for _, _, d in g.edges(data=True)}
         if g.number_of_edges() >= 10 and len(types) >= 3:
             nontrivial = True
